@@ -1,15 +1,21 @@
 use crate::cli::render::RenderArgs;
 use crate::cli::utils::output_formatter::OutputFormatter;
 use crate::error::ZervError;
-use crate::version::VersionObject;
+use crate::version::{
+    VersionObject,
+    Zerv,
+};
 
 pub fn run_render(args: RenderArgs) -> Result<String, ZervError> {
     args.validate()?;
     let version_object = VersionObject::parse_with_format(&args.version, &args.input_format)?;
-    let zerv = match version_object {
+    let mut zerv: Zerv = match version_object {
         VersionObject::SemVer(semver) => semver.into(),
         VersionObject::PEP440(pep440) => pep440.into(),
     };
+    // Same normal form as `zerv version` (an explicit epoch 0 is no epoch), so that the
+    // object emitted with --output-format zerv is the one --source stdin reads back
+    zerv.normalize();
     let output = OutputFormatter::format_output(
         &zerv,
         &args.output.output_format,
